@@ -125,5 +125,5 @@ def run(ctx):
 
 
 FINISH = dict(level="proof",
-              rule="generated well-formed templates (incl. block tags nested 7..13 deep, sort= on loops) x value trees (incl. pointer-to-value members as loop sets): fresh render, render filling a tags cache, render from that cache into a pre-filled stream, Stringify of the value and of every pointer target and the tag dump before/after every render; 6 threads x 3 renders sharing tags and value (ASan build and ThreadSanitizer build); widths 1 and 2",
+              rule="generated well-formed templates (incl. block tags nested 7..13 deep, sort= on loops) x value trees (incl. pointer-to-value members as loop sets): fresh render, render filling a tags cache, render from that cache into a pre-filled stream, Stringify of the value and of every pointer target and the tag dump before/after every render; 6 threads x 3 renders sharing tags and value (ASan build and ThreadSanitizer build); widths 1 and 2; round c: renders through copy-constructed / copy-assigned / appended copies of the tag array; for every pre-existing stream length 0..64 several values rendered consecutively through one cache into one stream, values incl. reals whose rounding carries out of the top digit",
               checker_cmd="cd lean && lake build Qentem.Props.C17 && lake env lean <#print axioms>")
